@@ -189,12 +189,17 @@ def render_linear(r, sp, terms, const=0.0, deep=0):
             parts.append(leaf)
         elif c == -1.0 and k < 0.3:
             parts.append(["neg", leaf])
-        elif k < 0.75:
+        elif k < 0.72:
             parts.append(["*", ["num", c], leaf])
-        elif k < 0.9:
+        elif k < 0.86:
             parts.append(["*", leaf, ["num", c]])
-        else:
+        elif k < 0.94:
             parts.append(["*", ["const", c], leaf])
+        elif k < 0.97:
+            # a coefficient that is itself a small constant expression: (Constant(c/2) * 2) * x
+            parts.append(["*", ["*", ["const", c / 2.0], ["num", 2.0]], leaf])
+        else:
+            parts.append(["*", ["neg", ["const", -c]], leaf])
     if const != 0.0 or r.random() < 0.1:
         parts.insert(r.randint(0, len(parts)), ["num", const])
     if parts[0][0] == "num" and len(parts) > 1:
@@ -445,6 +450,16 @@ def gen_pool(r, kinds=("lin", "quad", "nl"), layout=None, int_frac=0.0, nobj=5, 
         sp["cons"][f"c{i}"] = c
         ckinds[f"c{i}"] = kind
     mats = [d for d in sp["vars"] if d["kind"] == "matrix"]
+    if mats:
+        # element-wise matrix constraints against a NON-symmetric array (also for symmetric matrices)
+        d = mats[0]
+        ub = d["ub"] if d.get("ub") is not None else 4.0
+        lb = d["lb"] if d.get("lb") is not None else -4.0
+        B = [[lb + (ub - lb) * r.choice([0.25, 0.5, 0.75, 1.0]) for _ in range(d["cols"])] for _ in range(d["rows"])]
+        sp["cons"]["cm"] = {"k": "m", "lhs": [r.choice(["mat", "mat", "mT"]), d["name"]], "sense": "<=", "rhs": B}
+        ckinds["cm"] = "lin"
+        sp["cons"]["cn"] = {"k": "m", "lhs": ["mat", d["name"]], "sense": ">=", "rhs": lb + 0.25 * (ub - lb)}
+        ckinds["cn"] = "lin"
     if mats and r.random() < 0.6:
         # evaluates fine but has no compiler case: every solve that compiles it must raise, every time
         sp["cons"]["cu"] = {"k": "s", "lhs": ["msum", mats[0]["name"]], "sense": "<=", "rhs": ["num", r.choice([1.0, 3.0, 6.0])]}
@@ -629,6 +644,9 @@ def gen_c13(r, int_frac=0.0, strict_frac=0.0, maxlen=None):
         elif k < 0.33:
             cs = r.sample(cnames, r.choice([1, 2, 3]))
             ops.append(["subject_to_list", mid, cs])
+        elif k < 0.355 and have_obj[mid]:
+            # a rejected objective call: prob.maximize("...") raises; nothing about the model may change
+            ops.append(["objective_bad", mid, r.choice(["minimize", "maximize"])])
         elif k < 0.345:
             # a call that fails half-way: a list of scalar constraints with an invalid element
             cs = [c for c in r.sample(cnames, r.choice([2, 3])) if sp["cons"][c]["k"] == "s"]
@@ -670,6 +688,8 @@ def gen_c13(r, int_frac=0.0, strict_frac=0.0, maxlen=None):
             a = {"method": r.choice(C13_METHODS)}
             if r.random() < strict_frac:
                 a["strict"] = True
+            if strict_frac > 0 and r.random() < 0.08 and a["method"] in ("auto", "linprog", "highs", "highs-ds", "highs-ipm"):
+                a["kw"] = {"integrality": r.choice([0, 0, 1])}  # forwarded to linprog; says nothing about optyx's own guard
             if strict_frac > 0 and r.random() < 0.35:
                 a["same_site"] = True  # issued from one and the same line of the user's program (a loop / helper)
             if r.random() < 0.1:
@@ -681,6 +701,12 @@ def gen_c13(r, int_frac=0.0, strict_frac=0.0, maxlen=None):
             if r.random() < 0.15:
                 a["x0_prev"] = True
             cap_iterations(r, a)
+            if r.random() < 0.04 and a["method"] in ("SLSQP", "auto"):
+                # the peer makes SLSQP claim success at a point that violates a constraint: optyx
+                # retries with trust-constr; whatever it remembers about that must not outlive an edit
+                a["method"] = "SLSQP"
+                a["peers"] = [{"mode": "scripted", "entry": 0, "cls": "slsqp-0", "success": True, "status": 0,
+                               "message": "Optimization terminated successfully", "x": "far", "xkind": "far"}]
             if r.random() < 0.05:
                 # a transient failure while the solve builds its caches (k-th compile call raises)
                 a["fault"] = {"site": "compile", "k": r.choice([1, 2, 3, 4, 5, 7]), "exc": r.choice(["MemoryError", "RecursionError", "ValueError", "KeyboardInterrupt"])}
@@ -992,7 +1018,12 @@ def mutate_spec(r, sp):
                 d["values"] = [r.choice(PGRID) for _ in range(d["n"])]
         if r.random() < 0.7:
             return m
-    if k < 0.75:
+    if k < 0.2:
+        # the same names, but some variables FIXED by their bounds (lb == ub)
+        for d in m["vars"]:
+            if d.get("domain", "continuous") == "continuous" and r.random() < 0.6:
+                d["lb"] = d["ub"] = r.choice([0.5, 1.0, 2.0, -1.0])
+    elif k < 0.75:
         for d in m["vars"]:
             if d.get("domain", "continuous") == "binary":
                 continue
@@ -1152,7 +1183,13 @@ def gen_c14_shared(r, tier="quick"):
     opposite senses, Hessian / non-Hessian methods interleaved.  What one Problem computed for an
     expression must not leak into the other through anything keyed by the expression alone."""
     knobs = gen_knobs(r, 0.6)
-    sp = gen_any_pool(r)
+    lp_flavour = r.random() < 0.4
+    if lp_flavour:
+        # linear objectives and constraints: the Problems share constraint objects on the LP route
+        sp, _ = gen_pool(r, kinds=("lin", "lin", "lin"), nobj=4, ncon=6)
+        _add_bare_leaves(r, sp)
+    else:
+        sp = gen_any_pool(r)
     onames = [e for e in sorted(sp["exprs"]) if e.startswith("o")]
     ops = [["new_model", 0, sp], ["alias_model", 1, 0]]
     mids = [0, 1]
@@ -1164,9 +1201,12 @@ def gen_c14_shared(r, tier="quick"):
     r.shuffle(senses)
     for i, mid in enumerate(mids):
         ops.append([senses[i % 2], mid, o if r.random() < 0.8 else r.choice(onames)])
-        for c in r.sample(sorted(sp["cons"]), r.choice([0, 0, 1, 2])):
+        shared_cons = r.sample(sorted(sp["cons"]), r.choice([1, 2])) if lp_flavour and i == 0 else (shared_cons if lp_flavour else [])
+        for c in (shared_cons if lp_flavour else r.sample(sorted(sp["cons"]), r.choice([0, 0, 1, 2]))):
             ops.append(["subject_to", mid, c])
     meths = ["trust-constr", "trust-constr", "Newton-CG", "SLSQP", "auto", "L-BFGS-B"]
+    if lp_flavour:
+        meths = ["auto", "auto", "linprog", "highs-ds", "highs-ipm", "SLSQP"]
     for _ in range(r.randint(3, 7)):
         mid = r.choice(mids)
         if r.random() < 0.15 and sp["params"]:
@@ -1235,6 +1275,12 @@ def gen_c14(r, tier="quick"):
     early = r.random() < 0.6
     setup = _setup_ops(r, M, 0)
     obsM = gen_observations(r, M, 0, [], 4)  # M's own observation script (handles h0..)
+    if r.random() < 0.5:
+        be = r.choice([b for b in ("b1", "b2", "b2") if b in M["exprs"]])
+        need = sorted(S.mentioned(M, M["exprs"][be]), key=S.natural_key)
+        hid = "hb"
+        obsM.append(["compile", 0, hid, r.choice(["grad", "jac", "hess", "expr"]), {"e": be, "es": [be], "order": _gen_order(r, M, need)}])
+        obsM.append(["call", 0, hid, gen_point(r, M)])
     if early:
         ops.append(["new_model", 0, M])
         ops.extend(setup)
@@ -1608,7 +1654,7 @@ def gen_c06(r, tier="quick", c07=False):
             del sp["exprs"][g]
         sp["expr_order"] = sorted(sp["exprs"])
     else:
-        sp, meta = gen_pool(r, kinds=kinds, nobj=3, ncon=5, layout=r.choice(["A", "B", "C", "D", "E"]) if c07 else None)
+        sp, meta = gen_pool(r, kinds=kinds, nobj=3, ncon=5, layout=r.choice(["A", "B", "C", "D", "E"]) if c07 else ("D" if r.random() < 0.12 else None))
     inf = r.random() < (0.2 if c07 else 0.4)
     if inf:
         make_infeasible(r, sp)
@@ -1618,6 +1664,8 @@ def gen_c06(r, tier="quick", c07=False):
     ops.append([r.choice(["minimize", "maximize"] if c07 else ["minimize", "minimize", "maximize"]), 0, o])
     base = [c for c in sorted(sp["cons"]) if c not in ("k0", "k1")]
     cs = r.sample(base, r.choice([0, 1, 2, 3]))
+    if "cm" in sp["cons"] and "cm" not in cs and r.random() < 0.5:
+        cs.append("cm")  # element-wise matrix constraint against a non-symmetric array
     if inf:
         cs += ["k0", "k1"]
         r.shuffle(cs)
@@ -1759,7 +1807,11 @@ def gen_fault(r, kmax=40, lp=False):
     if k < 0.3:
         return {"site": "exit", "exc": exc}
     kk = r.choice([1, 1, 2, 2, 3, 4, 5, 7, 9, 12, 16, 25, kmax])
-    if k < 0.42:
+    if k < 0.36:
+        # the n-th call of a compile entry point during this solve raises: while the caches are
+        # built, or -- if compilation is deferred -- inside the callback that triggers it
+        return {"site": "compile", "k": r.choice([1, 2, 3, 3, 4, 5, 6, 7, 8, 10, 12, 15, 20]), "exc": exc}
+    if k < 0.48:
         # a compiled callable raises when optyx itself evaluates it after the solver returned
         # (post-solve feasibility check), or at its n-th evaluation overall
         if r.random() < 0.6:
